@@ -547,7 +547,7 @@ func moveRec(name string, in *tarFile, out *tarFile, picked map[string]struct{})
 	}
 
 	parent, _ := path.Split(strings.TrimSuffix(name, "/"))
-	if err := moveRec(parent, in, out, picked); err != nil {
+	if err := moveParentRec(parent, in, out, picked); err != nil {
 		return err
 	}
 	if e, ok := in.get(name); ok && e.header.Typeflag == tar.TypeLink {
@@ -563,6 +563,22 @@ func moveRec(name string, in *tarFile, out *tarFile, picked map[string]struct{})
 		picked[name] = struct{}{}
 	}
 	return nil
+}
+
+// moveParentRec moves the parent directories of an entry picked by moveRec.
+// A parent directory that has no entry in the tar (an implicit directory) isn't
+// an error: it is skipped and its own parents are still moved.
+func moveParentRec(name string, in *tarFile, out *tarFile, picked map[string]struct{}) error {
+	if cleaned := cleanEntryName(name); cleaned != "" {
+		_, okIn := in.get(cleaned)
+		_, okOut := out.get(cleaned)
+		_, okPicked := picked[cleaned]
+		if !okIn && !okOut && !okPicked {
+			parent, _ := path.Split(strings.TrimSuffix(cleaned, "/"))
+			return moveParentRec(parent, in, out, picked)
+		}
+	}
+	return moveRec(name, in, out, picked)
 }
 
 type entry struct {
